@@ -11,6 +11,7 @@ import (
 func init() {
 	verifRegister("verifC05RoleConflict", verifC05RoleConflict)
 	verifRegister("verifC05Pairwise", verifC05Pairwise)
+	verifRegister("verifC05Late487", verifC05Late487)
 }
 
 func verifC05RoleConflict() {
@@ -148,5 +149,43 @@ func verifC05Pairwise() {
 	flipA := run(tbA, tbB)
 	flipB := run(tbB, tbA)
 	verifAssert(flipA != flipB, "exactly-one-side-switches")
+	verifReach("done")
+}
+
+// A 487 answer to one of the agent's own checks. The roles are settled by the
+// requests alone (the receiver of a conflicting request decides and, if it
+// keeps its role, says so with a 487); the 487 itself is an error response and
+// changes nothing at the agent that receives it — in particular an agent that
+// has already given way to the peer's conflicting request is not flipped back
+// by the late 487 to a check it sent before. Correctly signed, transaction
+// outstanding, from the address the check went to: still nothing changes.
+func verifC05Late487() {
+	controlling := verifChoice(2) == 1
+	w := verifNewWorld(controlling, false, 1, 1)
+	w.pairAll()
+	a := w.a
+	a.tieBreaker = verifU64()
+	for _, p := range a.checklist {
+		p.state = CandidatePairState(verifInt(1, 4))
+		p.nominated = verifBool()
+		p.bindingRequestCount = uint16(verifInt(0, 9))
+	}
+	id := verifTxID()
+	dst := verifAddrPortOf(w.remotes[0])
+	a.pendingBindingRequests = append(a.pendingBindingRequests, bindingRequest{timestamp: verifNow(), transactionID: id,
+		destination: dst, networkType: NetworkTypeUDP4, isUseCandidate: verifChoice(2) == 1})
+	code := stun.CodeRoleConflict
+	if verifChoice(2) == 1 {
+		code = stun.CodeBadRequest
+	}
+	msg, err := stun.Build(stun.NewTransactionIDSetter(id), stun.NewType(stun.MethodBinding, stun.ClassErrorResponse),
+		code, stun.NewShortTermIntegrity(verifRemotePwd), stun.Fingerprint)
+	verifAssert(err == nil, "build-487")
+	before := w.snap()
+	selBefore := a.selector
+	a.handleInbound(msg, w.locals[0], dst)
+	after := w.snap()
+	verifAssert(after.controlling == before.controlling && a.selector == selBefore, "an-error-response-never-changes-the-role")
+	verifAssert(verifNothingChanged(before, after), "an-error-response-changes-nothing")
 	verifReach("done")
 }
